@@ -3,10 +3,10 @@ SPEC = dict(
     title='A stalled never-stop fan is noticed and pushed within a bounded time',
     props_file='Props/C10.v', props_mod='Props.C10',
     props_extra=[('Props/C10Link.v', 'Props.C10Link'), ('Props/C10Decay.v', 'Props.C10Decay')],
-    proof_files=['Proofs/CtrlLinksC10Progress.v', 'Proofs/Rescale.v', 'Proofs/Ctrl.v', 'Proofs/CtrlC10.v', 'Proofs/Decay.v', 'Proofs/CtrlC10Decay.v', 'Drv/CtrlC10.v'],
+    proof_files=['Proofs/CtrlLinksC10Progress.v', 'Proofs/CtrlLinksC10Keep.v', 'Proofs/Rescale.v', 'Proofs/Ctrl.v', 'Proofs/CtrlC10.v', 'Proofs/Decay.v', 'Proofs/CtrlC10Decay.v', 'Drv/CtrlC10.v'],
     tie_vo=['Proofs/LeafTie.vo', 'Proofs/ConstsTie_basic.vo', 'Proofs/ConstsTie_clamp.vo', 'Proofs/ConstsTie_stall.vo', 'Proofs/LeafTie2_calcTarget.vo', 'Proofs/LeafTie2_DirectCycle.vo', 'Proofs/LeafTie2_PidCycle.vo', 'Proofs/LeafTie2_applyPwmMapping.vo', 'Proofs/LeafTie2_HwMonGetMinPwm.vo', 'Proofs/LeafTie2_HwMonGetMaxPwm.vo', 'Proofs/LeafTie2_HwMonGetRpmAvg.vo', 'Proofs/LeafTie2_HwMonSetRpmAvg.vo', 'Proofs/LeafTie2_HwMonShouldNeverStop.vo'],
     drivers=[dict(name='ctrl', drv_mod='Drv.CtrlC10', drv_file='Drv/CtrlC10.v', shard=100,
-                  extra_mods=[('Drv.CtrlC10Progress', 'Drv/CtrlC10Progress.v')],
+                  extra_mods=[('Drv.CtrlC10Progress', 'Drv/CtrlC10Progress.v'), ('Drv.CtrlC10Keep', 'Drv/CtrlC10Keep.v')],
                   args={'quick': ['n=600', 'modes=stall,stall,random,const,stallmax,recover,stallext'], 'thorough': ['n=4000']}, timeout={'quick': 900, 'thorough': 6000}),
              dict(name='ctlrun', drv_mod='Drv.CtlRunC10', drv_file='Drv/CtlRunC10.v', shard=50,
                   args={'quick': ['reps=1'], 'thorough': ['reps=6']}, timeout={'quick': 600, 'thorough': 1800})],
